@@ -14,8 +14,15 @@ MANIFEST_ENTRY = {
           "jump-table length as its own error class. Theorems in coq/Properties/C20.v: relocation + frame for all 73^3 token "
           "triples and all sequences of length <= 5 over the reduced alphabet, for two non-empty initial states, except in the "
           "listed classes; witnesses for C20-K1 (the terminator-elision rule reads the previous program's last instruction) and "
-          "C20-K2 (the empty program reports entry 0 without pushing a jump entry). The statements for all trees are given, "
-          "with what is proved of them in Proofs/C20: proof (partial). On every run: sequences of 2..4 generated programs are "
+          "C20-K2 (the empty program reports entry 0 without pushing a jump entry); and, by induction on the tree, for EVERY tree "
+          "and EVERY initial state: the build never writes a jump entry below the initial jump-table length "
+          "(C20_no_foreign_jump_all_trees), every jump operand / expression value / the entry lies in the new jump range "
+          "(C20_own_jump_refs_all_trees), the build equals the build into an object with empty tables and the same last "
+          "instruction, relocated (C20_relocation_all_trees); outside C20-K1 it equals the build into the EMPTY object, "
+          "relocated (C20_relocation_full); outside C05-K1/K2 every new jump entry lies in the new instruction range "
+          "(C20_frame_full). These are theorems about the tree compiler, which is tied to the worklist transliteration of "
+          "build() by bounded theorems and the differential run. The step 'the runtime commutes with relocation' is covered by "
+          "the differential runs only. On every run: sequences of 2..4 generated programs are "
           "built into one data object in every order with executions interleaved, on both data implementations; every build is "
           "compared with the build alone (relocated), with the builder model run from the same initial state, every earlier "
           "program's instructions, jump entries and constants are re-read after every later build and execution, and every run "
